@@ -196,8 +196,40 @@ def h_tridonic_pairing(ctx, mode):
                     return
                 s = data[1]
                 seqs.append(s)
-                loop.call_soon(rig.deliver, loop, d, rigs.tridonic_report(0x12, 0x73, list(data[4:8]), s))
+                if mode != "abandoned":
+                    loop.call_soon(rig.deliver, loop, d, rigs.tridonic_report(0x12, 0x73, list(data[4:8]), s))
             rig.os.on_write = gateway
+            if mode == "abandoned":
+                # the first caller gives up (cancelled / its own timeout) after its frame was handed to the
+                # interface but before the interface reported on it; the next caller sends at once; then the
+                # interface reports on the first command (echo, answer) and afterwards on the second
+                gone = ctx.fresh_choice("first_reports", 3)       # 0: none, 1: echo only... of the first, late
+                t1 = asyncio.ensure_future(d.send(c1))
+                await asyncio.sleep(0.005)
+                if len(seqs) != 1:
+                    out["err"] = "first command not written"
+                    return
+                t1.cancel()
+                await vloop.settle(3)
+                t2 = asyncio.ensure_future(d.send(c2))
+                await asyncio.sleep(0.005)
+                if len(seqs) != 2:
+                    out["err"] = "second command not written after the first was abandoned (%d)" % len(seqs)
+                    return
+                late = [rigs.tridonic_report(0x12, 0x73, [0, 0, 0x03, 0xA0], seqs[0]),
+                        rigs.tridonic_report(0x12, 0x72, [0, 0, 0, v1], seqs[0])][:gone]
+                own = [rigs.tridonic_report(0x12, 0x73, [0, 0, 0x05, 0xA1], seqs[1]),
+                       rigs.tridonic_report(0x12, 0x72, [0, 0, 0, v2], seqs[1])]
+                for rep in late + own:
+                    rig.deliver(loop, d, rep)
+                    await vloop.settle(3)
+                await asyncio.sleep(0.5)
+                out["r1"] = None
+                out["r2"] = t2.result() if t2.done() and not t2.exception() else repr(t2)
+                out["outstanding"] = len(d._outstanding)
+                d.disconnect()
+                await vloop.settle(2)
+                return
             if mode == "inflight":
                 t1 = asyncio.ensure_future(d.send(c1, in_transaction=True))
                 t2 = asyncio.ensure_future(d.send(c2, in_transaction=True))
@@ -238,6 +270,8 @@ def h_tridonic_pairing(ctx, mode):
             ctx.fail("run failed: %r" % (out.get("err", r),), key=tag + "/run")
             return "failed"
         for who, cmd, res, v in (("first", c1, out["r1"], v1), ("second", c2, out["r2"], v2)):
+            if mode == "abandoned" and who == "first":
+                continue
             ok = type(res) is type(cmd).response and res.raw_value is not None
             ctx.prove(ok and E.eq(res.raw_value.as_integer, v),
                       "%s caller got %r instead of its own answer" % (who, res), key=tag + "/" + who)
@@ -428,6 +462,8 @@ class _DaliServerModel:
         self.outcomes = outcomes
         self.transmissions = []          # (frame bytes, connection index)
         self.conns = []
+        self.pushed = None
+        self.pushed_val = 0
 
     def connect(self, target):
         c = _DaliServerConn(self, len(self.conns))
@@ -437,18 +473,26 @@ class _DaliServerModel:
 
 class _DaliServerConn:
     def __init__(self, model, idx):
-        self.model, self.idx, self.queue, self.closed = model, idx, [], False
+        self.model, self.idx, self.queue, self.closed, self.extra = model, idx, [], False, False
 
     def send(self, data):
         n = len(self.model.transmissions)
         self.model.transmissions.append((data, self.idx))
         status, val = self.model.outcomes[n]
-        self.queue.append(rigs.mkbytes([2, status, val, 0]))
+        self.queue.extend([2, status, val, 0])
+        if self.model.pushed and self.model.pushed[n]:
+            # daliserver also pushes what it sees on the bus to every connected client: such a frame arrives
+            # in the same segment as the reply (only modelled for per-command connections, where it has to
+            # die with the socket)
+            self.queue.extend([2, 1, self.model.pushed_val, 0])
+            self.extra = True
 
     def recv(self, n):
+        # stream socket: at most n bytes of what has arrived
         if not self.queue:
             raise RuntimeError("recv() with nothing to read: the client would block forever")
-        return self.queue.pop(0)
+        out, self.queue = self.queue[:n], self.queue[n:]
+        return rigs.mkbytes(out)
 
     def close(self):
         self.closed = True
@@ -465,6 +509,9 @@ def h_daliserver_history(ctx, n):
         code = ctx.fresh_choice("status%d" % t, 3)
         outcomes.append(([0, 1, 255][code], ctx.fresh("val%d" % t, 0, 255)))
     model = _DaliServerModel(outcomes)
+    if not persistent:
+        model.pushed = [ctx.fresh_bool("pushed%d" % t) if t < 2 else False for t in range(2 * n)]
+        model.pushed_val = ctx.fresh("pushed_val", 0, 255)
     saved = DSM.socket
     DSM.socket = types.SimpleNamespace(create_connection=model.connect)
     try:
@@ -483,7 +530,7 @@ def h_daliserver_history(ctx, n):
                       "the command was not transmitted once (twice for send-twice)", key=tag + "/transmissions")
             status, val = outcomes[last]
             _check_typed(ctx, cmd, r, {0: "none", 1: "value", 255: "error"}[status], val, tag)
-            ctx.prove(all(not c.queue for c in model.conns),
+            ctx.prove(all(not c.queue or c.extra for c in model.conns),
                       "a status message is left unread on the connection (the next command would take it "
                       "for its own)", key=tag + "/unread-status")
         drv.__exit__(None, None, None)
@@ -516,7 +563,7 @@ def cases(tier):
                            {"which": which, "shape": i, "scenario": "stale-answers-2"}))
         cs.append(Case("sci-stale-info-%s" % SHAPES[i][0], h_serial,
                        {"which": "sci", "shape": i, "scenario": "stale-info"}))
-    for mode in ("inflight", "queued"):
+    for mode in ("inflight", "queued", "abandoned"):
         cs.append(Case("tridonic-pairing-%s" % mode, h_tridonic_pairing, {"mode": mode},
                        install=rigs.install_tridonic_structs))
     return cs
